@@ -155,12 +155,13 @@ Section Lattice.
             | TStruct ms => size_sub lo hi (struct_required ms) (zlen ms)
             | _ => false
             end
-        | TArray e lo hi =>
+        | TArray e lo hi =>             (* arraytype.go:192,197: `max <= 0` = at most the empty array, the element types
+                                           do not matter (fix a793d34; sizes with negative bounds construct) *)
             match b with
-            | TArray e' lo' hi' => size_sub lo hi lo' hi' && ((hi' =? 0) || asg e e')
+            | TArray e' lo' hi' => size_sub lo hi lo' hi' && ((hi' <=? 0) || asg e e')
             | TTuple ts _ lo' hi' =>
                 size_sub lo hi lo' hi' &&
-                ((hi' =? 0) ||
+                ((hi' <=? 0) ||
                  match ts with
                  | [] => asg e TAny
                  | _ => forallb (asg e) ts
@@ -169,7 +170,7 @@ Section Lattice.
             end
         | THash k v lo hi =>
             match b with
-            | THash k' v' lo' hi' => size_sub lo hi lo' hi' && ((hi' =? 0) || (asg k k' && asg v v'))
+            | THash k' v' lo' hi' => size_sub lo hi lo' hi' && ((hi' <=? 0) || (asg k k' && asg v v'))   (* hashtype.go:287 *)
             | TStruct ms =>
                 size_sub lo hi (struct_required ms) (zlen ms) &&
                 forallb (fun m => asg k (actual_key (fst (snd m))) && asg v (snd (snd m))) ms
@@ -177,13 +178,13 @@ Section Lattice.
             end
         | TTuple ts _ lo hi =>
             match b with
-            | TArray e' lo' hi' => size_sub lo hi lo' hi' && ((hi' =? 0) || forallb (fun t => asg t e') ts)
+            | TArray e' lo' hi' => size_sub lo hi lo' hi' && ((hi' <=? 0) || forallb (fun t => asg t e') ts)  (* tupletype.go:244 *)
             | TTuple os _ lo' hi' =>
                 size_sub lo hi lo' hi' &&
                 match ts with
                 | [] => true
                 | _ =>
-                  (hi' =? 0) ||
+                  (hi' <=? 0) ||                                    (* tupletype.go:260: slots only if max > 0 *)
                   match os with
                   | [] => forallb (fun t => asg t TAny) ts
                   | _ =>
